@@ -122,6 +122,20 @@ def main(tier):
                 o["kind"], o.get("dup_reads", 0), o.get("reads", 0), o.get("missing_reads", 0), o.get("example", ""), o.get("panic", "")),
                 {"kind": "omap_stress", "case": c, "observed": o, "signature": sig}, sig)
     chk.extra["serialisations_during_insertions"] = sum(sobs[c["id"]].get("reads", 0) for c in stress_cases)
+    # "no update is lost": goroutines incrementing two existing keys through Update, next to readers
+    ccases = [{"id": "counter_%s_%d" % (kind, i), "kind": kind, "goroutines": g, "counter": 3000 if thorough else 1500, "seed": sd + i}
+              for kind in KINDS for i, g in enumerate((2, 4, 8))]
+    cobs = harness("omap", ccases)
+    for c in ccases:
+        o = cobs[c["id"]]
+        chk.evaluations += 1
+        chk.traces += 1
+        chk.nontrivial.add(c["id"])
+        if o.get("panic") or o.get("lost_updates"):
+            sig = {"what": "lost update", "kind": o["kind"]}
+            chk.violation("collection %s: %d of %d updates are lost (%s) %s" % (o["kind"], o.get("lost_updates", 0), o.get("reads", 0), o.get("example", ""), o.get("panic", "")),
+                          {"kind": "omap_counter", "case": c, "observed": o, "signature": sig}, sig)
+    chk.extra["updates_counted"] = sum(cobs[c["id"]].get("reads", 0) for c in ccases)
     obs = harness("omap", cases)
     hist = [obs[c["id"]] for c in cases]
     for o in hist:
